@@ -166,6 +166,13 @@ def eval_app(v, env):
         if not isinstance(x, Arr):
             return _num(x)
         raise CannotEvaluate("sum over a nested array")
+    if fn == "flip" and len(a) == 1:
+        x = E(0)
+        if isinstance(x, Arr) and not any(isinstance(i, Arr) for i in x):
+            return Arr(reversed(x))       # representatives are 1-d: flipping every axis reverses the array
+        if not isinstance(x, Arr):
+            return x
+        raise CannotEvaluate("flip of a nested array")
     if fn in ("any", "all") and len(a) == 1 and not v.kw:
         x = E(0)
         xs = list(x) if isinstance(x, Arr) else [x]
